@@ -342,7 +342,7 @@ proof fn lemma_frame_step(body: Seq<u8>, kc: nat, cs: nat, tail: Seq<u8>)
 
 /// L1 with the chunk sizes given by their exponents
 pub proof fn lemma_deframe_frame_exp(body: Seq<u8>, kc: nat, ks: nat, tail: Seq<u8>)
-    requires kc <= 30, ks <= 30, body.len() <= u32::MAX
+    requires kc <= 30, ks <= 30
     ensures deframe_stream(frame_from(body, pow2(kc), pow2(ks)) + tail) == Some((body, frame_from(body, pow2(kc), pow2(ks)).len()))
     decreases body.len()
 {
@@ -360,10 +360,84 @@ pub proof fn lemma_deframe_frame_exp(body: Seq<u8>, kc: nat, ks: nat, tail: Seq<
 /// L1 (pairing): whatever follows on the wire, reading back a framed body yields exactly the body and
 /// stops exactly at the end of the frame.
 pub proof fn lemma_deframe_frame(body: Seq<u8>, cur: nat, cs: nat, tail: Seq<u8>)
-    requires is_partial_size(cur), is_partial_size(cs), body.len() <= u32::MAX
+    requires is_partial_size(cur), is_partial_size(cs)
     ensures deframe_stream(frame_from(body, cur, cs) + tail) == Some((body, frame_from(body, cur, cs).len()))
 {
     let kc = choose|k: nat| k <= 30 && cur == #[trigger] pow2(k);
     let ks = choose|k: nat| k <= 30 && cs == #[trigger] pow2(k);
     lemma_deframe_frame_exp(body, kc, ks, tail);
+}
+
+// ---- one step of a streaming emitter -------------------------------------------------------
+pub open spec fn pmin(a: int, b: int) -> int { if a <= b { a } else { b } }
+
+pub proof fn lemma_frame_last(body: Seq<u8>, cs: nat)
+    requires cs > 0, body.len() < cs
+    ensures frame_from(body, cs, cs) == enc_len(PacketLength::Fixed(body.len() as u32)) + body
+{}
+pub proof fn lemma_frame_more(body: Seq<u8>, cs: nat)
+    requires cs > 0, body.len() >= cs
+    ensures frame_from(body, cs, cs) == enc_len(PacketLength::Partial(cs as u32)) + body.subrange(0, cs as int) + frame_from(body.skip(cs as int), cs, cs)
+{}
+
+/// what a generator that has not yet written the packet's first octet still has to emit
+pub open spec fn packet_stream(tag: u8, header: Seq<u8>, payload: Seq<u8>, cs: nat) -> Seq<u8> {
+    seq![(192 + tag) as u8] + frame(header + payload, cs, cs)
+}
+
+/// the length header the RFC prescribes for a chunk of n payload octets when at most `chunk` fit:
+/// Partial(cs) if the chunk is full, else the final Fixed length (which on the first chunk counts the header)
+pub open spec fn chunk_len(first: bool, hl: nat, cs: nat, chunk: nat, n: nat) -> PacketLength {
+    if n < chunk { PacketLength::Fixed((n + (if first { hl } else { 0 })) as u32) } else { PacketLength::Partial(cs as u32) }
+}
+
+/// One step of a partial-body generator: having read n == min(chunk, |S|) payload octets it emits `pkt`;
+/// that is exactly the head of the RFC framing of what was still to be written.
+pub proof fn lemma_gen_step(tag: u8, h: Seq<u8>, s: Seq<u8>, cs: nat, first: bool, n: nat, pkt: Seq<u8>)
+    requires
+        tag < 64, 0 < cs <= 0x8000_0000, h.len() < cs,
+        n == pmin((if first { cs - h.len() } else { cs as int }), s.len() as int),
+        pkt == (if first { enc_hdr(Hdr::New { tag, len: chunk_len(first, h.len(), cs, (cs - h.len()) as nat, n) }) + h }
+                else { enc_len(chunk_len(first, h.len(), cs, cs, n)) }) + s.subrange(0, n as int),
+    ensures
+        (if first { packet_stream(tag, h, s, cs) } else { frame_from(s, cs, cs) })
+            == pkt + (if n < (if first { cs - h.len() } else { cs as int }) { Seq::<u8>::empty() } else { frame_from(s.skip(n as int), cs, cs) }),
+        // the length written exists in the new format (for a full chunk: provided cs is a legal partial body length)
+        is_partial_size(cs) || n < (if first { cs - h.len() } else { cs as int })
+            ==> new_len_ok(chunk_len(first, h.len(), cs, (if first { (cs - h.len()) as nat } else { cs }), n)),
+{
+    let chunk: nat = if first { (cs - h.len()) as nat } else { cs };
+    let body = if first { h + s } else { s };
+    let hl: nat = if first { h.len() } else { 0 };
+    let l = chunk_len(first, h.len(), cs, chunk, n);
+    if is_partial_size(cs) {
+        let k = choose|k: nat| k <= 30 && cs == #[trigger] pow2(k);
+        lemma_pow2_u32(k);
+        assert(partial_ok(cs as u32)) by { assert(cs as u32 as nat == pow2(k)); }
+    }
+    assert(body.len() == hl + s.len());
+    if n < chunk {
+        // the stream ended inside this chunk: final Fixed chunk
+        assert(s.subrange(0, n as int) =~= s);
+        lemma_frame_last(body, cs);
+        assert(l == PacketLength::Fixed(body.len() as u32));
+        if first {
+            assert(enc_hdr(Hdr::New { tag, len: l }) =~= seq![(192 + tag) as u8] + enc_len(l));
+            assert(seq![(192 + tag) as u8] + (enc_len(l) + (h + s)) =~= (seq![(192 + tag) as u8] + enc_len(l) + h) + s);
+        }
+        assert(pkt + Seq::<u8>::empty() =~= pkt);
+    } else {
+        lemma_frame_more(body, cs);
+        assert(l == PacketLength::Partial(cs as u32));
+        let fr = frame_from(s.skip(n as int), cs, cs);
+        if first {
+            assert(body.subrange(0, cs as int) =~= h + s.subrange(0, n as int));
+            assert(body.skip(cs as int) =~= s.skip(n as int));
+            assert(enc_hdr(Hdr::New { tag, len: l }) =~= seq![(192 + tag) as u8] + enc_len(l));
+            assert(seq![(192 + tag) as u8] + (enc_len(l) + (h + s.subrange(0, n as int)) + fr)
+                =~= (seq![(192 + tag) as u8] + enc_len(l) + h + s.subrange(0, n as int)) + fr);
+        } else {
+            assert(enc_len(l) + s.subrange(0, n as int) + fr =~= (enc_len(l) + s.subrange(0, n as int)) + fr);
+        }
+    }
 }
